@@ -509,6 +509,10 @@ func (m *machine) unop(fr *frame, instr *ssa.UnOp) value {
 		case complex128:
 			return -x
 		case *sym:
+			if b.Info()&types.IsFloat != 0 {
+				m.havocs++
+				return &sym{t: m.fresh("fhavoc", 64)}
+			}
 			_, signed := widthOf(b)
 			return m.fromTerm(m.tf.neg(x.t), signed)
 		}
